@@ -108,14 +108,15 @@ def run(rep: Report, prog: Program, tier: str) -> None:
             return type(v).__name__ in names
         return NotImplemented
 
-    for msg in ["", "x", "héllo ✓", b"", b"\x00", b"\x00\xff binary"]:
+    # the receiving channel may still be "connecting" (its DATA_CHANNEL_ACK or the COOKIE-ACK is late): the chunk has been acknowledged, so the message is delivered all the same
+    for msg, state in [(m, st) for m in ["", "x", "héllo ✓", b"", b"\x00", b"\x00\xff binary"] for st in ("open", "connecting")]:
         try:
             q: List[Any] = []
-            ch = SimpleNamespace(id=3)
+            ch = SimpleNamespace(id=3, readyState="open")
             ev = Evaluator(prog, mod, tcls, {"channel": ch, "data": msg, "self._data_channel_queue": q}, hook)
             ev.exec_block(snd.node.body)
             _c, ppid, user_data = q[0]
-            target = SimpleNamespace()
+            target = SimpleNamespace(id=3, readyState=state)
             env = {"stream_id": 3, "pp_id": ppid, "data": user_data, "self._data_channels": {3: target}}
             ev2 = Evaluator(prog, mod, tcls, env, hook)
             try:
@@ -128,10 +129,11 @@ def run(rep: Report, prog: Program, tier: str) -> None:
         except Raised as r:
             em = [f"raises {r.name}"]
         ok = em == [["message", msg]] and type(em[0][1]) is type(msg) and len(user_data) >= 1
+        what = f"message {msg!r}" + ("" if state == "open" else f" arriving while the channel is {state}")
         if ok:
-            rep.ok("C01-PPID", f"message {msg!r}", sample=f"PPID {ppid}, {len(user_data)} byte payload, delivered as {em[0][1]!r}")
+            rep.ok("C01-PPID", what, sample=f"PPID {ppid}, {len(user_data)} byte payload, delivered as {em[0][1]!r}")
         else:
-            rep.fail(mk_finding(prog, PROP, "C01-PPID", rcv, rcv.node, f"message {msg!r} is sent as PPID {ppid} / {user_data!r} and delivered as {em}", construct=f"ppid roundtrip {msg!r}"))
+            rep.fail(mk_finding(prog, PROP, "C01-PPID", rcv, rcv.node, f"{what} is sent as PPID {ppid} / {user_data!r} and delivered as {em}", construct=f"ppid roundtrip {msg!r}" + ("" if state == "open" else f" ({state})")))
 
     # ---------------- C01-FRAG
     rep.rule("C01-FRAG", "fragmentation, TSN and flag assignment", min_instances=10)
